@@ -265,6 +265,7 @@ struct Job {
     b: Val,
     src: String,
     exhaustive: bool,
+    shape: &'static str,
 }
 
 fn host_specials() -> (u64, u64, u64) {
@@ -274,6 +275,34 @@ fn host_specials() -> (u64, u64, u64) {
     let ninf = black_box(inf * black_box(-1.0));
     let nan = black_box(inf - inf);
     (inf.to_bits(), ninf.to_bits(), nan.to_bits())
+}
+
+/// the operand shapes the compiler distinguishes for scalar comparisons: variable/variable (`vv`, the
+/// default), variable/literal (`vl`: the optimizer turns the literal into the immediate of an `*Imm`
+/// instruction), literal/variable (`lv`), literal/literal (`ll`), and a literal match pattern (`match`)
+fn shaped_program(t: &Ty, a: &Val, b: &Val, sp: (u64, u64, u64), shape: &str) -> String {
+    let (la, lb) = (a.abra(sp), b.abra(sp));
+    if shape == "match" {
+        return format!("let x: {} = {la}\nmatch x {{\n  {lb} -> println(true)\n  _ -> println(false)\n}}\n", t.abra());
+    }
+    let mut s = String::new();
+    let (x, y) = match shape {
+        "vl" => { s.push_str(&format!("let x: {} = {la}\n", t.abra())); ("x".to_string(), lb) }
+        "lv" => { s.push_str(&format!("let y: {} = {lb}\n", t.abra())); (la, "y".to_string()) }
+        _ => (la, lb),
+    };
+    s.push_str(&format!("println({x} == {y})\nprintln({x} != {y})\nprintln({x} < {y})\nprintln({x} <= {y})\nprintln({x} > {y})\nprintln({x} >= {y})\n"));
+    if t.has_hash() {
+        s.push_str(&format!("println(Hash.hash({x}))\nprintln(Hash.hash({y}))\n"));
+    }
+    s
+}
+
+fn literal_ok(v: &Val) -> bool {
+    match v { Val::F(b) => f64::from_bits(*b).is_finite(), _ => true }
+}
+fn pattern_ok(v: &Val) -> bool {
+    match v { Val::F(b) => f64::from_bits(*b).is_finite() && b >> 63 == 0, Val::I(n) => *n >= 0, Val::U => false, _ => true }
 }
 
 fn program(t: &Ty, a: &Val, b: &Val, sp: (u64, u64, u64)) -> String {
@@ -338,7 +367,7 @@ fn main() {
         let vs = all_values(t, max_len);
         for a in &vs {
             for b in &vs {
-                jobs.push(Job { ty: t.clone(), a: a.clone(), b: b.clone(), src: program(t, a, b, sp), exhaustive: true });
+                jobs.push(Job { ty: t.clone(), a: a.clone(), b: b.clone(), src: program(t, a, b, sp), exhaustive: true, shape: "vv" });
             }
         }
     }
@@ -347,7 +376,26 @@ fn main() {
         let vs = scalars(&t, sp);
         for a in &vs {
             for b in &vs {
-                jobs.push(Job { ty: t.clone(), a: a.clone(), b: b.clone(), src: program(&t, a, b, sp), exhaustive: false });
+                jobs.push(Job { ty: t.clone(), a: a.clone(), b: b.clone(), src: program(&t, a, b, sp), exhaustive: false, shape: "vv" });
+            }
+        }
+    }
+    // ---- every operand shape for the scalar types: all pairs of bool, and of the boundary ints/floats/strings
+    for t in [Ty::B, Ty::I, Ty::F, Ty::S] {
+        let vs = scalars(&t, sp);
+        for a in &vs {
+            for b in &vs {
+                for shape in ["vl", "lv", "ll", "match"] {
+                    let ok = match shape {
+                        "vl" => literal_ok(b),
+                        "lv" => literal_ok(a),
+                        "ll" => literal_ok(a) && literal_ok(b),
+                        _ => pattern_ok(b),
+                    };
+                    // quick tier: every pair in `vl` (the immediate forms), a seeded half in the other shapes
+                    if !ok || (quick && shape != "vl" && shape != "match" && ctx.rng.chance(1, 2)) { continue; }
+                    jobs.push(Job { ty: t.clone(), a: a.clone(), b: b.clone(), src: shaped_program(&t, a, b, sp, shape), exhaustive: false, shape });
+                }
             }
         }
     }
@@ -366,19 +414,48 @@ fn main() {
                 1 | 2 => mutate(t, &a, &mut ctx.rng, sp),
                 _ => rand_val(t, &mut ctx.rng, sp),
             };
-            jobs.push(Job { ty: t.clone(), a: a.clone(), b: b.clone(), src: program(t, &a, &b, sp), exhaustive: false });
+            jobs.push(Job { ty: t.clone(), a: a.clone(), b: b.clone(), src: program(t, &a, &b, sp), exhaustive: false, shape: "vv" });
         }
     }
 
-    let results = par_map(&jobs, |j| render(&j.ty, &run_program(&j.src)));
+    let float_prologue = {
+        let mut h = String::from("1");
+        for _ in 0..308 { h.push('0'); }
+        format!("let huge = {h}.0\nlet inf = huge * 10.0\nlet ninf = inf * (-1.0)\nlet nan = inf - inf\n")
+    };
+    let results = par_map(&jobs, |j| {
+        if j.shape == "vv" {
+            return render(&j.ty, &run_program(&j.src));
+        }
+        let src = if j.ty == Ty::F { format!("{float_prologue}{}", j.src) } else { j.src.clone() };
+        let r = run_program(&src);
+        if j.shape == "match" {
+            return match (&r.outcome, r.out.trim()) {
+                (Outcome::Done, "true") => "eq=1".to_string(),
+                (Outcome::Done, "false") => "eq=0".to_string(),
+                (o, out) => format!("other {} {:?} {}", o.tag(), out, match o { Outcome::Rejected(m) | Outcome::Crash(m) => m.replace(['\n', '\t'], " ").chars().take(160).collect::<String>(), _ => String::new() }),
+            };
+        }
+        render(&j.ty, &r)
+    });
 
     // ---- record, compare with the oracle, collect the tables for the laws
     let mut table: HashMap<String, HashMap<(String, String), String>> = HashMap::new();
     for (j, imp) in jobs.iter().zip(results.iter()) {
         let tc = j.ty.code();
+        ctx.count(&format!("shape:{}", j.shape));
+        if j.shape == "match" {
+            let eq = oracle_eq(&j.a, &j.b);
+            let spec = format!("eq={}", if eq { 1 } else { 0 });
+            if *imp != spec {
+                ctx.spec_fail(format!("{} : match {} {{ {} -> true, _ -> false }}: implementation `{imp}`, a literal pattern matches exactly the values == to it: `{spec}`\n--- program\n{}", j.ty.abra(), j.a.abra(sp), j.b.abra(sp), j.src));
+            }
+            ctx.case(format!("cmp24m {tc} {} {}", j.a.code(), j.b.code()), imp.clone());
+            continue;
+        }
         ctx.count(&format!("type:{tc}"));
         ctx.count(if j.exhaustive { "domain:exhaustive" } else { "domain:sampled" });
-        let what = format!("{} : {} ? {}", j.ty.abra(), j.a.abra(sp), j.b.abra(sp));
+        let what = format!("{} [{}] : {} ? {}", j.ty.abra(), j.shape, j.a.abra(sp), j.b.abra(sp));
         let eq = oracle_eq(&j.a, &j.b);
         let bit = |x: bool| if x { "1" } else { "0" };
         let mut spec = format!("eq={} ne={}", bit(eq), bit(!eq));
@@ -401,8 +478,10 @@ fn main() {
                 if eq { ctx.count("hash:equal-values") } else if ha == hb { ctx.count("hash:collision") } else { ctx.count("hash:different") }
             }
         }
-        table.entry(tc.clone()).or_default().insert((j.a.code(), j.b.code()), imp.clone());
-        ctx.case(format!("cmp24 {tc} {} {}", j.a.code(), j.b.code()), imp.clone());
+        // the laws are evaluated per operand shape (a full table exists for `vv` and `vl`)
+        let tkey = if j.shape == "vv" { tc.clone() } else { format!("{tc}[{}]", j.shape) };
+        table.entry(tkey).or_default().insert((j.a.code(), j.b.code()), imp.clone());
+        ctx.case(format!("cmp24 {tc} {} {} #{}", j.a.code(), j.b.code(), j.shape), imp.clone());
     }
 
     // ---- the laws, evaluated directly on the implementation's answers
